@@ -35,8 +35,8 @@ class C09(BaseCheck):
                  'attempt durations stay small against the retry intervals)')
   QUICK_CASES = 256
   THOROUGH_CASES = 6000
-  QUICK_WALL = 60
-  THOROUGH_WALL = 480
+  QUICK_WALL = 180
+  THOROUGH_WALL = 1800
   MIN_DISTINCT = 10
 
   def _multi(self, env, rng, idx, tier):
